@@ -107,6 +107,9 @@ ENTRY(c15_zdt_zone) {
   const extended::ZoneInfo* zi = zonedbx::kZoneRegistry[a0];
   TimeZone tz = TimeZone::forZoneInfo(zi, &proc);
   ZonedDateTime z = ZonedDateTime::forEpochSeconds((acetime_t) a1, tz);
+  // another zone (a2) bound to the same processor is used in between (documented as allowed): the printed name is still a0's
+  TimeZone other = TimeZone::forZoneInfo(zonedbx::kZoneRegistry[a2], &proc);
+  __verif_observe("other_off", other.getUtcOffset((acetime_t) a1).toMinutes());
   BufPrint p; z.printTo(p); p.finish();
   BufPrint q; z.localDateTime().printTo(q); z.timeOffset().printTo(q); q.finish();
   __verif_assert(strncmp(p.buf, q.buf, 25) == 0, "starts with the offset date-time text");
